@@ -675,23 +675,7 @@ def classify(module, typename, syntax, status, stderr="", facts=()):
         return "C01-xer-real-basic-lossy"
     if syntax == "coer" and status == "CMP" and "wide_int" in facts:
         return "C01-wide-integer-compare"
-    # UPER "encode the character as is" test is `ub <= 2^bits` instead of `ub <= 2^bits - 1`: the highest character of such
-    # an alphabet is truncated to code 0
-    if syntax == "cper" and status == "NEQ" and "km_ub_pow2" in facts:
-        return "C01-uper-alphabet-ub-pow2"
-    # ... and the same expression shifts by (0 - 1) for a one-character alphabet (0 bits per character)
-    if syntax == "cper" and status == "CRASH" and "km_bits0" in facts and re.search(r"OCTET_STRING\.c:\d+:\d+: runtime error: shift exponent", stderr or ""):
-        return "C01-uper-alphabet-single-char-shift"
-    # BMPString / UniversalString XER output is not escaped
-    if syntax in ("xer", "cxer") and "ustr_xer_lt" in facts and (status == "NEQ" or status.startswith("DEC:")):
-        return "C01-xer-ucs-string-no-escape"
-    if syntax in ("xer", "cxer") and "ustr_xer_entref" in facts and status == "NEQ":
-        return "C01-xer-ucs-string-no-escape"
-    # ... and the unescaped text "&#0;" / "&#;" then meets the decoder's assert(val > 0) (C04's finding; C01 reaches it only this way)
-    if syntax in ("xer", "cxer") and status == "CRASH" and "ustr_xer_charref0" in facts and "OCTET_STRING__convert_entrefs: Assertion `val > 0' failed" in (stderr or ""):
-        return "C01-xer-ucs-string-no-escape"
-    # asn_OP_ObjectDescriptor has no OER codec
-    if syntax == "coer" and "no_oer_codec" in facts and has_node(module, typename, lambda n: n["k"] == "STRING" and n["stype"] == "ObjectDescriptor"):
-        if status == ("ENCFAIL:ENOENT" if top_kind(module, typename) == "STRING" else "ENCFAIL:EBADF"):
-            return "C01-objectdescriptor-no-oer"
+    # (no branch for the permitted-alphabet boundary, one-character alphabet, BMPString/UniversalString XER escaping and
+    #  ObjectDescriptor OER defects: repaired by notes/fixes/H; the driver still prints their value-level facts km_ub_pow2, km_bits0,
+    #  ustr_xer_lt, ustr_xer_entref, ustr_xer_charref0, no_oer_codec as diagnostics in a violation's replay)
     return None
